@@ -150,7 +150,7 @@ def eval_case(case):
 
 def eval_ssh1(case):
     cm, am, opts = case['cmask'], case['amask'], case['opts']
-    peer = fakenet.Ssh1Server(cmask=cm, amask=am)
+    peer = fakenet.Ssh1Server(cmask=cm, amask=am, skey_bits=case.get('skey_bits', 768), hkey_bits=case.get('hkey_bits', 1024))
     net = fakenet.FakeNet()
     net.add('h', 22, peer)
     argv = opts + (['-1'] if case.get('flag1') else []) + ['--skip-rate-test', 'h']
@@ -252,6 +252,9 @@ def run(ctx):
     for c, a in [(0x48 | 0xffffff80, 0x0c | 0xffffff80), (0xffffffff, 0xffffffff), (0x80, 0x81)]:
         for opts in RENDERINGS:
             ssh1.append({'proto': 1, 'cmask': c, 'amask': a, 'opts': opts, 'flag1': True})
+    # key sizes: the length of the message (and with it the amount of packet padding, 1..8 bytes) follows from them
+    for i, (sk, hk) in enumerate((sk, hk) for sk in (512, 768, 776, 784, 1024, 1023) for hk in (1024, 1032, 1040, 1048, 1056, 1064, 1072, 1080, 2048, 4096, 1025)):
+        ssh1.append({'proto': 1, 'cmask': 0x4c, 'amask': 0x2c, 'opts': RENDERINGS[i % len(RENDERINGS)], 'flag1': bool(i % 2), 'skey_bits': sk, 'hkey_bits': hk})
     ctx.map(ssh1)
     # engine-B sample over deterministic peers drawn from the table (names incl. gss-*, unknown, duplicates)
     ab = []
